@@ -63,7 +63,7 @@ NoOpM == [own |-> "", kind |-> "", a |-> "", m |-> 0, d |-> 0, stNow |-> 0,
 
 NoMsgM == [op |-> 0, a |-> "", handled |-> 0, acc |-> FALSE, preStop |-> FALSE, postStop |-> FALSE,
            before |-> {}, rejected |-> FALSE, replied |-> FALSE, rv |-> 0, repNow |-> 0, tr |-> 0,
-           tout |-> ""]      \* how the task spawned by this request's (ask_join) handler ended: "" | "ok" | "panic"
+           tout |-> ""]      \* how the task spawned by this request's (ask_join) handler ended: "" | "ok" | "panic" | "abort"
 
 MonInit(strict, dd) ==
   [strict |-> strict, dd |-> dd, now |-> 0, bad |-> {}, dlCount |-> 0, crashed |-> FALSE,
@@ -229,12 +229,15 @@ OnOpEnd(mon, ev) ==
            \cup B(op.kind = "kill" /\ ev.res # "ok", "C06", "kill() failed")
            \* C11
            \cup B(isMsg /\ op.afterJoin /\ ev.res # "send", "C11", "send to an ended actor did not fail")
-           \cup B(ev.res \notin {"ok","send","timeout","recv","join"}, "C03", "unexpected error kind")
+           \cup B(ev.res \notin {"ok","send","timeout","recv","join","joinc"}, "C03", "unexpected error kind")
            \* ask_join returns exactly the output, or the join error, of the task the handler spawned
            \cup B(ev.res = "join" /\ ~(op.kind = "askJ" /\ (op.jp \/ M.tout = "panic")), "C03", "join error although the spawned task did not fail")
-           \cup B(op.kind = "askJ" /\ ev.res = "ok" /\ (op.jp \/ M.tout = "panic"), "C03", "ask_join returned a value although the spawned task panicked")
+           \cup B(op.kind = "askJ" /\ ev.res = "ok" /\ (op.jp \/ M.tout \in {"panic", "abort"}), "C03", "ask_join returned a value although the spawned task panicked or was cancelled")
+           \* the JoinError inside Error::Join says truthfully whether the task was cancelled or panicked
+           \cup B(ev.res = "joinc" /\ ~(op.kind = "askJ" /\ M.tout = "abort"), "C03", "ask_join reported a cancelled task although the spawned task was not aborted")
+           \cup B(mon.strict /\ ev.res = "join" /\ M.tout = "abort", "C03", "ask_join reported a panicked task although the spawned task was aborted")
            \* cooperative traces say when each spawned task ends
-           \cup B(mon.strict /\ op.kind = "askJ" /\ ev.res \in {"ok", "join"} /\ M.tout = "",
+           \cup B(mon.strict /\ op.kind = "askJ" /\ ev.res \in {"ok", "join", "joinc"} /\ M.tout = "",
                   "C03", "ask_join returned before the task its handler spawned had ended")
            \cup B(op.kind = "askJ" /\ ev.res = "recv" /\ M.replied, "C03", "ask_join did not return the outcome of the task its handler spawned")
            \* C16: the same call on the ActorRef and through a type-erased wrapper, issued in the same situation
